@@ -1,39 +1,288 @@
 /-
-C04 proofs — structural invariants, part A: mutex ownership.
+C04 proofs — structural invariants (regMx, lmxWalk, lmxOrph): preservation by `exec` and `begin`.
 -/
 import TbbVerif.Proofs.C04.Frame
 
 namespace TbbVerif.C04
-variable {cfg : Cfg} {reg : List Nat} {s : St} {t : Nat}
+variable {cfg : Cfg} {r : List RF} {reg : List Nat} {s : St} {t : Nat}
+
+theorem regMx_exec_c (hS : Struct reg s) :
+    ∀ t', ((execCancel cfg reg s t).pc t').inReg = true → (execCancel cfg reg s t).regMx = some t' := by
+  have g0 := hS.regMx
+  have g0t := hS.regMx t
+  unfold execCancel
+  try unfold walkNext
+  try unfold afterHint
+  try unfold applyReset
+  repeat' split
+  all_goals (try rw [‹s.pc t = _›] at g0t)
+  all_goals (try simp [Pc.inReg] at g0t)
+  all_goals (intro t' h1; by_cases ht : t' = t <;> first | (subst ht; try simp [upd_apply, afterLists, nextList, Pc.inReg] at h1 ⊢) | (try simp [ht, upd_apply, afterLists, nextList] at h1 ⊢))
+  all_goals grind [Pc.inReg]
+
+theorem regMx_exec_b (hS : Struct reg s) :
+    ∀ t', ((execBind cfg s t).pc t').inReg = true → (execBind cfg s t).regMx = some t' := by
+  have g0 := hS.regMx
+  have g0t := hS.regMx t
+  unfold execBind
+  try unfold walkNext
+  try unfold afterHint
+  try unfold applyReset
+  repeat' split
+  all_goals (try rw [‹s.pc t = _›] at g0t)
+  all_goals (try simp [Pc.inReg] at g0t)
+  all_goals (intro t' h1; by_cases ht : t' = t <;> first | (subst ht; try simp [upd_apply, afterLists, nextList, Pc.inReg] at h1 ⊢) | (try simp [ht, upd_apply, afterLists, nextList] at h1 ⊢))
+  all_goals grind [Pc.inReg]
+
+theorem regMx_exec_o (hS : Struct reg s) :
+    ∀ t', ((execOther s t).pc t').inReg = true → (execOther s t).regMx = some t' := by
+  have g0 := hS.regMx
+  have g0t := hS.regMx t
+  unfold execOther
+  try unfold walkNext
+  try unfold afterHint
+  try unfold applyReset
+  repeat' split
+  all_goals (try rw [‹s.pc t = _›] at g0t)
+  all_goals (try simp [Pc.inReg] at g0t)
+  all_goals (intro t' h1; by_cases ht : t' = t <;> first | (subst ht; try simp [upd_apply, afterLists, nextList, Pc.inReg] at h1 ⊢) | (try simp [ht, upd_apply, afterLists, nextList] at h1 ⊢))
+  all_goals grind [Pc.inReg]
 
 theorem regMx_exec (hS : Struct reg s) :
     ∀ t', ((exec cfg reg s t).pc t').inReg = true → (exec cfg reg s t).regMx = some t' := by
-  have h := hS.regMx
-  exec_cases
-  all_goals (intro t' h'; try simp [upd_apply, afterLists, nextList] at h' ⊢)
+  unfold exec
+  split
+  · exact regMx_exec_c hS
+  · split
+    · exact regMx_exec_b hS
+    · exact regMx_exec_o hS
+
+theorem regMx_begin (hS : Struct reg s) (hi : s.pc t = .idle) :
+    ∀ t', ((begin cfg reg s t).pc t').inReg = true → (begin cfg reg s t).regMx = some t' := by
+  have g0 := hS.regMx
+  have g0t := hS.regMx t
+  begin_cases
+  all_goals (try rw [hi] at g0t)
+  all_goals (try simp [Pc.inReg] at g0t)
+  all_goals (intro t' h1; by_cases ht : t' = t <;> first | (subst ht; try simp [upd_apply, afterLists, nextList, Pc.inReg] at h1 ⊢) | (try simp [ht, upd_apply, afterLists, nextList] at h1 ⊢))
   all_goals grind [Pc.inReg]
 
-theorem regMx_begin (hS : Struct reg s) :
-    ∀ t', ((begin reg s t).pc t').inReg = true → (begin reg s t).regMx = some t' := by
-  have h := hS.regMx
-  begin_cases
-  all_goals (intro t' h'; try simp [upd_apply] at h' ⊢)
-  all_goals grind [Pc.inReg]
+theorem lmxWalk_exec_c (hS : Struct reg s) :
+    ∀ t' i L, ((execCancel cfg reg s t).pc t').walkIdx = some i → reg[i]? = some L → (execCancel cfg reg s t).lmx L = some t' := by
+  have g0 := hS.lmxWalk
+  have g0t := hS.lmxWalk t
+  have g1 := hS.lmxBind
+  have g1t := hS.lmxBind t
+  have g2 := hS.lmxDes
+  have g2t := hS.lmxDes t
+  have g3 := hS.lmxOrph
+  have g3t := hS.lmxOrph t
+  unfold execCancel
+  try unfold walkNext
+  try unfold afterHint
+  try unfold applyReset
+  repeat' split
+  all_goals (try rw [‹s.pc t = _›] at g0t)
+  all_goals (try simp [Pc.walkIdx] at g0t)
+  all_goals (try rw [‹s.pc t = _›] at g1t)
+  all_goals (try simp [Pc.walkIdx] at g1t)
+  all_goals (try rw [‹s.pc t = _›] at g2t)
+  all_goals (try simp [Pc.walkIdx] at g2t)
+  all_goals (try rw [‹s.pc t = _›] at g3t)
+  all_goals (try simp [Pc.walkIdx] at g3t)
+  all_goals (intro t' i L h1 h2; by_cases ht : t' = t <;> first | (subst ht; try simp [upd_apply, afterLists, nextList, Pc.walkIdx] at h1 h2 ⊢) | (try simp [ht, upd_apply, afterLists, nextList] at h1 h2 ⊢))
+  all_goals grind [Pc.walkIdx]
+
+theorem lmxWalk_exec_b (hS : Struct reg s) :
+    ∀ t' i L, ((execBind cfg s t).pc t').walkIdx = some i → reg[i]? = some L → (execBind cfg s t).lmx L = some t' := by
+  have g0 := hS.lmxWalk
+  have g0t := hS.lmxWalk t
+  have g1 := hS.lmxBind
+  have g1t := hS.lmxBind t
+  have g2 := hS.lmxDes
+  have g2t := hS.lmxDes t
+  have g3 := hS.lmxOrph
+  have g3t := hS.lmxOrph t
+  unfold execBind
+  try unfold walkNext
+  try unfold afterHint
+  try unfold applyReset
+  repeat' split
+  all_goals (try rw [‹s.pc t = _›] at g0t)
+  all_goals (try simp [Pc.walkIdx] at g0t)
+  all_goals (try rw [‹s.pc t = _›] at g1t)
+  all_goals (try simp [Pc.walkIdx] at g1t)
+  all_goals (try rw [‹s.pc t = _›] at g2t)
+  all_goals (try simp [Pc.walkIdx] at g2t)
+  all_goals (try rw [‹s.pc t = _›] at g3t)
+  all_goals (try simp [Pc.walkIdx] at g3t)
+  all_goals (intro t' i L h1 h2; by_cases ht : t' = t <;> first | (subst ht; try simp [upd_apply, afterLists, nextList, Pc.walkIdx] at h1 h2 ⊢) | (try simp [ht, upd_apply, afterLists, nextList] at h1 h2 ⊢))
+  all_goals grind [Pc.walkIdx]
+
+theorem lmxWalk_exec_o (hS : Struct reg s) :
+    ∀ t' i L, ((execOther s t).pc t').walkIdx = some i → reg[i]? = some L → (execOther s t).lmx L = some t' := by
+  have g0 := hS.lmxWalk
+  have g0t := hS.lmxWalk t
+  have g1 := hS.lmxBind
+  have g1t := hS.lmxBind t
+  have g2 := hS.lmxDes
+  have g2t := hS.lmxDes t
+  have g3 := hS.lmxOrph
+  have g3t := hS.lmxOrph t
+  unfold execOther
+  try unfold walkNext
+  try unfold afterHint
+  try unfold applyReset
+  repeat' split
+  all_goals (try rw [‹s.pc t = _›] at g0t)
+  all_goals (try simp [Pc.walkIdx] at g0t)
+  all_goals (try rw [‹s.pc t = _›] at g1t)
+  all_goals (try simp [Pc.walkIdx] at g1t)
+  all_goals (try rw [‹s.pc t = _›] at g2t)
+  all_goals (try simp [Pc.walkIdx] at g2t)
+  all_goals (try rw [‹s.pc t = _›] at g3t)
+  all_goals (try simp [Pc.walkIdx] at g3t)
+  all_goals (intro t' i L h1 h2; by_cases ht : t' = t <;> first | (subst ht; try simp [upd_apply, afterLists, nextList, Pc.walkIdx] at h1 h2 ⊢) | (try simp [ht, upd_apply, afterLists, nextList] at h1 h2 ⊢))
+  all_goals grind [Pc.walkIdx]
 
 theorem lmxWalk_exec (hS : Struct reg s) :
     ∀ t' i L, ((exec cfg reg s t).pc t').walkIdx = some i → reg[i]? = some L → (exec cfg reg s t).lmx L = some t' := by
-  have h1 := hS.lmxWalk
-  have h2 := hS.lmxBind
-  have h3 := hS.lmxDes
-  exec_cases
-  all_goals (intro t' i L h' hL; try simp [upd_apply, afterLists, nextList] at h' ⊢)
+  unfold exec
+  split
+  · exact lmxWalk_exec_c hS
+  · split
+    · exact lmxWalk_exec_b hS
+    · exact lmxWalk_exec_o hS
+
+theorem lmxWalk_begin (hS : Struct reg s) (hi : s.pc t = .idle) :
+    ∀ t' i L, ((begin cfg reg s t).pc t').walkIdx = some i → reg[i]? = some L → (begin cfg reg s t).lmx L = some t' := by
+  have g0 := hS.lmxWalk
+  have g0t := hS.lmxWalk t
+  have g1 := hS.lmxBind
+  have g1t := hS.lmxBind t
+  have g2 := hS.lmxDes
+  have g2t := hS.lmxDes t
+  have g3 := hS.lmxOrph
+  have g3t := hS.lmxOrph t
+  begin_cases
+  all_goals (try rw [hi] at g0t)
+  all_goals (try simp [Pc.walkIdx] at g0t)
+  all_goals (try rw [hi] at g1t)
+  all_goals (try simp [Pc.walkIdx] at g1t)
+  all_goals (try rw [hi] at g2t)
+  all_goals (try simp [Pc.walkIdx] at g2t)
+  all_goals (try rw [hi] at g3t)
+  all_goals (try simp [Pc.walkIdx] at g3t)
+  all_goals (intro t' i L h1 h2; by_cases ht : t' = t <;> first | (subst ht; try simp [upd_apply, afterLists, nextList, Pc.walkIdx] at h1 h2 ⊢) | (try simp [ht, upd_apply, afterLists, nextList] at h1 h2 ⊢))
   all_goals grind [Pc.walkIdx]
 
-theorem lmxWalk_begin (hS : Struct reg s) :
-    ∀ t' i L, ((begin reg s t).pc t').walkIdx = some i → reg[i]? = some L → (begin reg s t).lmx L = some t' := by
-  have h1 := hS.lmxWalk
+theorem lmxOrph_exec_c (hS : Struct reg s) :
+    ∀ t', (execCancel cfg reg s t).pc t' = .xOrphU → (execCancel cfg reg s t).lmx t' = some t' := by
+  have g0 := hS.lmxWalk
+  have g0t := hS.lmxWalk t
+  have g1 := hS.lmxBind
+  have g1t := hS.lmxBind t
+  have g2 := hS.lmxDes
+  have g2t := hS.lmxDes t
+  have g3 := hS.lmxOrph
+  have g3t := hS.lmxOrph t
+  unfold execCancel
+  try unfold walkNext
+  try unfold afterHint
+  try unfold applyReset
+  repeat' split
+  all_goals (try rw [‹s.pc t = _›] at g0t)
+  all_goals (try simp [Pc.walkIdx] at g0t)
+  all_goals (try rw [‹s.pc t = _›] at g1t)
+  all_goals (try simp [Pc.walkIdx] at g1t)
+  all_goals (try rw [‹s.pc t = _›] at g2t)
+  all_goals (try simp [Pc.walkIdx] at g2t)
+  all_goals (try rw [‹s.pc t = _›] at g3t)
+  all_goals (try simp [Pc.walkIdx] at g3t)
+  all_goals (intro t' h1; by_cases ht : t' = t <;> first | (subst ht; try simp [upd_apply, afterLists, nextList, Pc.walkIdx] at h1 ⊢) | (try simp [ht, upd_apply, afterLists, nextList] at h1 ⊢))
+  all_goals grind [Pc.walkIdx]
+
+theorem lmxOrph_exec_b (hS : Struct reg s) :
+    ∀ t', (execBind cfg s t).pc t' = .xOrphU → (execBind cfg s t).lmx t' = some t' := by
+  have g0 := hS.lmxWalk
+  have g0t := hS.lmxWalk t
+  have g1 := hS.lmxBind
+  have g1t := hS.lmxBind t
+  have g2 := hS.lmxDes
+  have g2t := hS.lmxDes t
+  have g3 := hS.lmxOrph
+  have g3t := hS.lmxOrph t
+  unfold execBind
+  try unfold walkNext
+  try unfold afterHint
+  try unfold applyReset
+  repeat' split
+  all_goals (try rw [‹s.pc t = _›] at g0t)
+  all_goals (try simp [Pc.walkIdx] at g0t)
+  all_goals (try rw [‹s.pc t = _›] at g1t)
+  all_goals (try simp [Pc.walkIdx] at g1t)
+  all_goals (try rw [‹s.pc t = _›] at g2t)
+  all_goals (try simp [Pc.walkIdx] at g2t)
+  all_goals (try rw [‹s.pc t = _›] at g3t)
+  all_goals (try simp [Pc.walkIdx] at g3t)
+  all_goals (intro t' h1; by_cases ht : t' = t <;> first | (subst ht; try simp [upd_apply, afterLists, nextList, Pc.walkIdx] at h1 ⊢) | (try simp [ht, upd_apply, afterLists, nextList] at h1 ⊢))
+  all_goals grind [Pc.walkIdx]
+
+theorem lmxOrph_exec_o (hS : Struct reg s) :
+    ∀ t', (execOther s t).pc t' = .xOrphU → (execOther s t).lmx t' = some t' := by
+  have g0 := hS.lmxWalk
+  have g0t := hS.lmxWalk t
+  have g1 := hS.lmxBind
+  have g1t := hS.lmxBind t
+  have g2 := hS.lmxDes
+  have g2t := hS.lmxDes t
+  have g3 := hS.lmxOrph
+  have g3t := hS.lmxOrph t
+  unfold execOther
+  try unfold walkNext
+  try unfold afterHint
+  try unfold applyReset
+  repeat' split
+  all_goals (try rw [‹s.pc t = _›] at g0t)
+  all_goals (try simp [Pc.walkIdx] at g0t)
+  all_goals (try rw [‹s.pc t = _›] at g1t)
+  all_goals (try simp [Pc.walkIdx] at g1t)
+  all_goals (try rw [‹s.pc t = _›] at g2t)
+  all_goals (try simp [Pc.walkIdx] at g2t)
+  all_goals (try rw [‹s.pc t = _›] at g3t)
+  all_goals (try simp [Pc.walkIdx] at g3t)
+  all_goals (intro t' h1; by_cases ht : t' = t <;> first | (subst ht; try simp [upd_apply, afterLists, nextList, Pc.walkIdx] at h1 ⊢) | (try simp [ht, upd_apply, afterLists, nextList] at h1 ⊢))
+  all_goals grind [Pc.walkIdx]
+
+theorem lmxOrph_exec (hS : Struct reg s) :
+    ∀ t', (exec cfg reg s t).pc t' = .xOrphU → (exec cfg reg s t).lmx t' = some t' := by
+  unfold exec
+  split
+  · exact lmxOrph_exec_c hS
+  · split
+    · exact lmxOrph_exec_b hS
+    · exact lmxOrph_exec_o hS
+
+theorem lmxOrph_begin (hS : Struct reg s) (hi : s.pc t = .idle) :
+    ∀ t', (begin cfg reg s t).pc t' = .xOrphU → (begin cfg reg s t).lmx t' = some t' := by
+  have g0 := hS.lmxWalk
+  have g0t := hS.lmxWalk t
+  have g1 := hS.lmxBind
+  have g1t := hS.lmxBind t
+  have g2 := hS.lmxDes
+  have g2t := hS.lmxDes t
+  have g3 := hS.lmxOrph
+  have g3t := hS.lmxOrph t
   begin_cases
-  all_goals (intro t' i L h' hL; try simp [upd_apply] at h' ⊢)
+  all_goals (try rw [hi] at g0t)
+  all_goals (try simp [Pc.walkIdx] at g0t)
+  all_goals (try rw [hi] at g1t)
+  all_goals (try simp [Pc.walkIdx] at g1t)
+  all_goals (try rw [hi] at g2t)
+  all_goals (try simp [Pc.walkIdx] at g2t)
+  all_goals (try rw [hi] at g3t)
+  all_goals (try simp [Pc.walkIdx] at g3t)
+  all_goals (intro t' h1; by_cases ht : t' = t <;> first | (subst ht; try simp [upd_apply, afterLists, nextList, Pc.walkIdx] at h1 ⊢) | (try simp [ht, upd_apply, afterLists, nextList] at h1 ⊢))
   all_goals grind [Pc.walkIdx]
 
 end TbbVerif.C04
